@@ -29,6 +29,9 @@ type vhCoordinator struct {
 	syncResp     syncGroupResponseV0
 	syncErr      error
 	parts        []Partition
+	joins        int
+	joinOutcome  func(call int) (joinGroupResponse, error) // overrides joinResp/joinErr when set
+	joinMembers  []string                                  // member id carried by each joinGroup request
 }
 
 var vhErrCoordinator = errors.New("vh: coordinator failure")
@@ -38,8 +41,13 @@ func (c *vhCoordinator) findCoordinator(findCoordinatorRequestV0) (findCoordinat
 	c.calls = append(c.calls, "findCoordinator")
 	return findCoordinatorResponseV0{Coordinator: findCoordinatorResponseCoordinatorV0{NodeID: 1, Host: "h", Port: 9092}}, nil
 }
-func (c *vhCoordinator) joinGroup(joinGroupRequest) (joinGroupResponse, error) {
+func (c *vhCoordinator) joinGroup(r joinGroupRequest) (joinGroupResponse, error) {
 	c.calls = append(c.calls, "joinGroup")
+	c.joins++
+	c.joinMembers = append(c.joinMembers, r.MemberID)
+	if c.joinOutcome != nil {
+		return c.joinOutcome(c.joins)
+	}
 	return c.joinResp, c.joinErr
 }
 func (c *vhCoordinator) syncGroup(syncGroupRequestV0) (syncGroupResponseV0, error) {
